@@ -55,9 +55,12 @@ stageLoop:
 			*logql.LabelFilter,
 			*logql.LabelFormatExpr,
 			*logql.DropLabelsExpr,
-			*logql.KeepLabelsExpr,
-			*logql.DistinctFilter:
+			*logql.KeepLabelsExpr:
 			// Do nothing on line, just skip.
+		case *logql.DistinctFilter:
+			// Stage is stateful: which record is the first of its value depends
+			// on the records it sees, can't offload line filters after this stage.
+			break stageLoop
 		case *logql.LineFormat,
 			*logql.DecolorizeExpr,
 			*logql.UnpackLabelParser:
